@@ -30,6 +30,9 @@ Theorem C06_source_unquote_to_bytes : forall T s, src_unquote_to_bytes T s = unq
 Proof. exact src_unquote_to_bytes_eq. Qed.
 Print Assumptions C06_source_unquote_to_bytes.
 
+Theorem C06_source_unquote : forall T s, src_unquote T s = unquote T s.
+Proof. exact src_unquote_eq. Qed.
+Print Assumptions C06_source_unquote.
 Theorem C06_source_parse_qsl : forall T qs, src_parse_qsl T qs = parse_qsl T qs.
 Proof. exact src_parse_qsl_eq. Qed.
 Print Assumptions C06_source_parse_qsl.
